@@ -1211,3 +1211,18 @@ Lemma reap_expired_refuted :
   w_doms (dom_delete_reaping (fun _ => true) w_demo 3 0) = []
   /\ exec current_table w_demo (KConn 3) 0 (c_demo 86 (Some 0) None) = mk false w_demo.
 Proof. split; vm_compute; reflexivity. Qed.
+
+(* answering a command with the result computed for ANOTHER connection's command of the same type and CommandId (a seeded
+   breaking change: in-flight duplex commands coalesced by "<type>/<CommandId>") is refuted: the party's MappingGet result names
+   mapping #0, of which the stranger (client 3) is not a party; the stranger's own result names nothing *)
+Lemma coalesced_result_refuted :
+  let rA := exec current_table w_demo (KConn 1) 0 (c_demo 75 (Some 0) None) in
+  let rB := exec current_table w_demo (KConn 3) 0 (c_demo 75 (Some 0) None) in
+  res_dm rA = [0] /\ res_dm rB = [] /\ res_ok rB = false
+  /\ ~ (forall i, In i (res_dm rA) -> exists m, In m (w_maps w_demo) /\ m_id m = i /\ partyP 3 m).
+Proof.
+  cbn zeta. split; [vm_compute; reflexivity|]. split; [vm_compute; reflexivity|]. split; [vm_compute; reflexivity|].
+  intro H. destruct (H 0 (or_introl eq_refl)) as [m [Hin [Hid [_ Hp]]]].
+  vm_compute in Hin. destruct Hin as [<-|[<-|[]]]; cbn in Hid, Hp; [|discriminate Hid].
+  destruct Hp as [Hp|Hp]; discriminate Hp.
+Qed.
